@@ -327,6 +327,86 @@ def rule_scope_order(prog):
                 out.add(b["d"], "names in a procedure body are resolved through the scoped LookupTable", recv_t == LT, fc.loc(lk["sp"]),
                         "the analysis has the procedure's LookupTable but asks the global table directly: a local variable or parameter "
                         "of that name no longer shadows the global declaration (wrong or missing diagnostic)", ("site", "semantic"))
+    # (5b) the entry a declaration is analysed with is its own: where the analysis fetches the procedure entry *by the name* of the
+    #      declaration at hand and takes its local table, it first makes sure the entry was built from this very declaration (ranges
+    #      compared) - a redeclaration finds the first declaration's entry under its name
+    for b in fc.bodies:
+        if not b["p"].startswith("spl_frontend::table::semantic") or "/tests" in fc.file_of(b["sp"]):
+            continue
+        for st, parents in hir.walk(b["body"]):
+            if st.get("k") != "Struct" or st.get("adt") != LT:
+                continue
+            f = {x["name"]: x["e"] for x in st["fields"]}
+            src = [x for x in hir.nodes(f.get("local_table", {})) if x.get("k") == "Field" and x["name"] == "local_table"]
+            if not src:
+                continue
+            ent = hir.path_local(hir.strip_ref(src[0]["base"]))
+            if not ent:
+                continue
+            # the entry binding comes from a by-name lookup?
+            by_name = False
+            for n2 in hir.nodes(b["body"], "MethodCall"):
+                if n2["m"] == "lookup" and n2["args"] and _recv_adt(fc, n2) == GT:
+                    kp2 = place(hir.strip_ref(n2["args"][0])) or ""
+                    if kp2.endswith(".value"):
+                        by_name = True
+            if not by_name:
+                continue
+            guarded = False
+            for pr_ in parents:
+                pass
+            for iff in hir.nodes(b["body"], "If"):
+                for bn in hir.nodes(iff["cond"], "Binary"):
+                    if bn["op"] in ("!=", "==", "Ne", "Eq"):
+                        sides = [bn["l"], bn["r"]]
+                        has_entry_range = any(x.get("k") == "Field" and x["name"] == "range" and (hir.path_local(hir.strip_ref(x["base"])) or {}).get("id") == ent["id"]
+                                              for sd in sides for x in hir.nodes(sd))
+                        has_decl_range = any(x.get("k") == "MethodCall" and x["m"] in ("to_range", "to_text_range") for sd in sides for x in hir.nodes(sd)) or \
+                            any(x.get("k") == "Field" and x["name"] == "offset" for sd in sides for x in hir.nodes(sd))
+                        if has_entry_range and has_decl_range:
+                            guarded = True
+            n_sites += 1
+            out.add(b["d"], "a procedure body is analysed with the entry built from this very declaration", guarded, fc.loc(st["sp"]),
+                    "the entry is fetched by the declaration's name and its local table is used unchecked: the body of a redeclared procedure "
+                    "(`proc p(a: int) {}  proc p(b: int) { b := 1; }`) is checked against the first declaration's parameters and variables and "
+                    "gets spurious `undefined variable` diagnostics besides the redeclaration error", ("site", "semantic"))
+    # (3c) type identity: every array type expression creates a new type.  The creator of the anonymous array type of a parameter /
+    #      variable must not be derived from the declaration's own name alone (two declarations of the same name in different
+    #      procedures, or a type declaration of that name, would then be the *same* type and a prescribed mismatch goes unreported)
+    for b in fc.bodies:
+        if not b["p"].startswith("spl_frontend::table::") or b["p"] in resolvers:
+            continue
+        owner = None
+        decl_ids = set()
+        for q in b["params"]:
+            for pp in hir.pat_bindings(q):
+                t = fc.tstr(pp["bt"])
+                for k_ in ("ParameterDeclaration", "VariableDeclaration"):
+                    if "ast::" + k_ in t:
+                        owner = k_
+                        decl_ids.add(pp["id"])
+        if owner is None:
+            continue
+        param_ids = {pp["id"] for q in b["params"] for pp in hir.pat_bindings(q)}
+        for call in hir.nodes(b["body"], "Call"):
+            if (hir.callee(call) or "") not in resolvers:
+                continue
+            # the creator argument: neither the type expression nor the table
+            cands = []
+            for a in call["args"]:
+                ts = fc.tstr(a["t"])
+                if "TypeExpression" in ts or "LookupTable" in ts:
+                    continue
+                cands.append(a)
+            if len(cands) != 1:
+                continue
+            srcs = _value_sources(prog, cands[0], fc)
+            outside = (srcs & param_ids) - decl_ids
+            n_ts += 1
+            out.add(b["d"], "the anonymous array type of a %s gets an identity of its own" % owner, bool(outside), fc.loc(call["sp"]),
+                    "the creator handed to the type resolver is computed from the declaration alone (its name): `ref a: array [3] of int` in one "
+                    "procedure and `var a: array [3] of int` in another are then the same type and `p(a)` is not reported as a type mismatch",
+                    ("typescope", "typeident"))
     # (6) position: types are global entities only and a procedure is not in its own local table.  A handler that resolves a *raw
     #     identifier token* (cursor identifier, token of the stream) through the scoped table must first tell the syntactic position:
     #     in a type position (`x: T`, `array [n] of T`) the table builder binds the name in the global scope, so a parameter or
@@ -406,6 +486,28 @@ def rule_scope_order(prog):
     if n_sites < 5:
         out.missing("LookupTable lookups in feature handlers (found %d)" % n_sites)
     return out
+
+
+def _value_sources(prog, e, crate, depth=2):
+    """ids of the locals a value is computed from; an argument of a local helper counts only if the helper uses that parameter"""
+    res = set()
+    e = hir.strip(e)
+    if e.get("k") in ("Call", "MethodCall"):
+        hb = hir.local_callee_body(prog, e)
+        args = ([e["recv"]] if e.get("recv") else []) + list(e.get("args") or [])
+        if hb is not None and hb["_crate"] is crate and depth > 0 and len(hb["params"]) == len(args):
+            for a, q in zip(args, hb["params"]):
+                ids = {pp["id"] for pp in hir.pat_bindings(q)}
+                used = any((hir.path_local(x) or {}).get("id") in ids for x in hir.nodes(hb["body"]))
+                if used:
+                    res |= _value_sources(prog, a, crate, depth - 1)
+            return res
+    pl = hir.path_local(e)
+    if pl:
+        res.add(pl["id"])
+    for ch in hir.children(e):
+        res |= _value_sources(prog, ch, crate, depth)
+    return res
 
 
 TT_ = "spl_frontend::tokens::TokenType::"
